@@ -132,6 +132,10 @@ def gen_stack(rng, tier):
             hs = b"".join(b for _, b in E.peer_handshake(rng, c, peer_type=peer))
             data = b"".join(E.frame(b"x" if i == 0 else b"y", more=(i < k - 1)) for i in range(k)) + E.frame(b"after")
             cases.append(["rawpeer %s %s -" % (E.cfg_str(c), E.hexspec(hs + data))])
+    # messages sent FRAME BY FRAME with send() to several peers must reach one peer each, whole
+    for sty, rty in (("PUSH", "PULL"), ("DEALER", "DEALER"), ("DEALER", "ROUTER")):
+        for peers in (1, 2, 3):
+            cases.append(["framewise %s %s %d %d" % (sty, rty, peers, rng.choice([4, 6, 9]))])
     for n in (1, 2, 3, 200, 252, 253, 254, 255, 256, 257, 300, 1000):
         for tr, s, r in (("tcp", "PUSH", "PULL"), ("tcp", "DEALER", "ROUTER"), ("inproc", "PUSH", "PULL"), ("tcp", "DEALER", "DEALER")):
             if tier == "quick" and n in (2, 200, 257, 1000) and s != "PUSH":
